@@ -34,7 +34,9 @@ def main():
         n = str(meta.get("regress_seeds", n))     # changes that need a rare conjunction state their own budget (still below the quick tier's)
         c = sh("python3", os.path.join(ROOT, "tools", "check.py"), prop, "--seeds", n, "--no-minimise", "--evidence-dir", EV, "--replay-dir", EV, env=env)
         keys = [l.split(" -- ")[0].replace("violation: ", "") for l in c.stdout.splitlines() if l.startswith("violation: ")]
-        rows.append((sid, prop, "DETECTED (exit %d, %.0fs)" % (c.returncode, time.time() - t0) if c.returncode == 1 else "exit %d" % c.returncode, "; ".join(keys[:4])))
+        outcome = "DETECTED (exit %d, %.0fs)" % (c.returncode, time.time() - t0) if c.returncode == 1 else "exit %d" % c.returncode
+        if c.returncode == 0 and meta.get("expected_outcome") == "not detected": outcome = "not detected (recorded as such, DESIGN.md 12.12)"
+        rows.append((sid, prop, outcome, "; ".join(keys[:4])))
         print(rows[-1], flush=True)
     for d in (PRISTINE, SCR, BLD, EV): sh("rm", "-rf", d)
     if args:   # partial run: keep the other rows of the existing table
@@ -49,7 +51,7 @@ def main():
     with open(os.path.join(ROOT, "seeded", "RESULTS.md"), "w") as f:
         f.write("# Seeded changes against the checks\n\nWritten by tools/run_seeded_all.py (quick tier, %s scenarios per check; /repo at %s).\n\n| change | breaks | outcome of the property's check | first violation keys |\n|---|---|---|---|\n" % (seeds, sh("git", "-C", "/repo", "rev-parse", "--short", "HEAD").stdout.strip()))
         for r in rows: f.write("| %s | %s | %s | %s |\n" % r)
-    bad = [r for r in rows if not r[2].startswith("DETECTED")]
+    bad = [r for r in rows if not r[2].startswith("DETECTED") and not r[2].startswith("not detected (recorded")]
     sys.exit(1 if bad else 0)
 if __name__ == "__main__":
     main()
